@@ -861,6 +861,7 @@ static Node *declaration(Token **rest, Token *tok, Type *basety, VarAttr *attr) 
     if (attr && attr->is_static) {
       // static local variable
       Obj *var = new_anon_gvar(ty);
+      var->is_tls = attr->is_tls;
       push_scope(get_ident(ty->name))->var = var;
       if (equal(tok, "="))
         gvar_initializer(&tok, tok->next, var);
